@@ -20,10 +20,18 @@ PKG_CALLER = "./services/attester/standard"
 TEST_CALLER = "TestVerifC06Caller"
 N_CALLER_QUICK = (300, 150)       # (histories with a filtered validator ahead of a served one, others)
 N_CALLER_THOROUGH = (None, 3000)  # (all of them, others)
+# sibling caller: the sync committee messenger (duty op "sync_root")
+PKG_SYNC = "./services/synccommitteemessenger/standard"
+TEST_SYNC = "TestVerifC06CallerSync"
+N_SYNC_QUICK = (120, 40)          # (histories with a validator without account beside a served one, others)
 
 
 def caller_driver(scenarios, tag):
     return vf.run_driver(PID, PKG_CALLER, TEST_CALLER, scenarios, "caller-" + tag, timeout=1500)
+
+
+def sync_driver(scenarios, tag):
+    return vf.run_driver(PID, PKG_SYNC, TEST_SYNC, scenarios, "sync-" + tag, timeout=1500)
 
 
 def deliveries_of(s):
@@ -45,7 +53,8 @@ def filtered_ahead(st):
 
 
 def caller_sig_of(s):
-    return {"family": "caller", "acct": s["steps"][0]["acct"], "fork": fork_of(s),
+    return {"family": "caller", "ops": sorted({st.get("op", "attestations") for st in deliveries_of(s)}),
+            "acct": s["steps"][0]["acct"], "fork": fork_of(s),
             "deliveries": [[st["slot"], [[e["v"], e["c"]] for e in st["entries"]]] for st in deliveries_of(s)]}
 
 
@@ -62,6 +71,8 @@ def caller_nontrivial(s, rows):
         if len(st["served"]) < len(st["entries"]):
             return True
         if len({e["c"] for e in st["entries"]}) >= 2:
+            return True
+        if st.get("op") == "sync_root" and len(st["served"]) >= 2:
             return True
     return False
 
@@ -86,6 +97,24 @@ def caller_histories(tier, rnd):
                                name="scen-caller-big", timeout=900)
         sel += sim[:3000]
     return sel, len(strong), len(hs)
+
+
+def sync_histories(tier, rnd):
+    """the sibling caller: histories of sync committee message duties (op "sync_root") on one wired instance - every
+    pair of duties of Scen_SignerCaller_sync.cfg x account populations of a wallet; the real Duty lists its
+    validators in map order, so a validator without account comes ahead of a served one in about half of the runs
+    of a history that has both"""
+    hs = vf.tlc_scenarios(PID, "Scen_SignerCaller", "Scen_SignerCaller_sync.cfg", exhaustive=True, timeout=900,
+                          name="scen-caller-sync")
+    def partial(h):
+        return any(0 < len(st["served"]) < len(st["entries"]) for st in h[1:])
+    strong = [h for h in hs if partial(h)]
+    rest = [h for h in hs if not partial(h)]
+    rnd.shuffle(strong)
+    rnd.shuffle(rest)
+    if tier == "quick":
+        return strong[:N_SYNC_QUICK[0]] + rest[:N_SYNC_QUICK[1]], len(strong), len(hs)
+    return strong + rest, len(strong), len(hs)
 
 
 def calls_of(s):
@@ -303,6 +332,8 @@ def model_checks(tier):
             # instance; overlapping deliveries on a smaller alphabet
             ("SignerCaller", "MC_SignerCaller.cfg", 900), ("SignerCaller", "MC_SignerCaller_dutypos.cfg", 900),
             ("SignerCaller", "MC_SignerCaller_overlap.cfg", 900),
+            # the sibling caller (sync committee messenger -> SignSyncCommitteeRoots)
+            ("SignerCaller", "MC_SignerCaller_sync.cfg", 900),
             # the deviations are right on a fresh instance / when every validator has an account
             ("SignerCaller", "MC_SignerCaller_filtered_fresh.cfg", 900),
             ("SignerCaller", "MC_SignerCaller_acctpos_fresh.cfg", 900)]
@@ -310,7 +341,8 @@ def model_checks(tier):
         # the long one first: it is the critical path of the thorough tier
         runs = [("MC_Signer", "MC_Signer_big.cfg", 1800), ("MC_Signer", "MC_Signer_hist_big.cfg", 1800),
                 ("MC_Signer", "MC_Signer_sign_big.cfg", 1800), ("MC_Signer", "MC_Signer_boot_big.cfg", 1800),
-                ("SignerCaller", "MC_SignerCaller_big.cfg", 1800), ("SignerCaller", "MC_SignerCaller_mid.cfg", 1800)] + runs
+                ("SignerCaller", "MC_SignerCaller_big.cfg", 1800), ("SignerCaller", "MC_SignerCaller_mid.cfg", 1800),
+                ("SignerCaller", "MC_SignerCaller_both.cfg", 1800)] + runs
     return runs
 
 
@@ -357,6 +389,10 @@ def run_selfcheck_caller():
     # committee data taken at the position in the accounts array (right while every listed validator has an account)
     must_violate("SignerCaller", "MC_SignerCaller_acctpos.cfg", ("PairedOwn", "SubmittedRight"),
                  "committee data paired by position in the accounts array")
+    # the sibling caller: signatures of the compacted batch paired with the duty's validators by position - the
+    # signer call shows nothing (one root for all positions), what leaves does
+    must_violate("SignerCaller", "MC_SignerCaller_sync_acctpos.cfg", ("SubmittedRight",),
+                 "sync committee messages: signatures of the compacted batch paired by position with the duty's validators")
     # and the passing model is not empty: a duty whose first validator is filtered out does attest for a later one
     must_violate("SignerCaller", "MC_SignerCaller_reach.cfg", ("NeverFilteredAhead",),
                  "(reachability witness) a re-delivered duty whose first validator already attested, a later one attesting")
@@ -408,6 +444,15 @@ def run(tier):
         "type carries the specifications' value (the values come from Signer.tla's table DomainTypeBytes, as do the "
         "domain types of the oracle; the driver has no table of its own); a nil response with a nil error from the "
         "spec provider is not in the alphabet (go-eth2-client never returns one)",
+        "wired families (caller's side of the batch contract): the duties, validator records, attestation data / head "
+        "block root, domains and the submission end point are the beacon node's and are fakes; everything between "
+        "them is the real code wired as main.go wires it (attester or sync committee messenger, signer, wallet account "
+        "manager over a filesystem store with an nd wallet, validators manager, immediate submitter, chaintime); a "
+        "validator 'without account' is one whose record is not active at the epoch (the account manager's own state "
+        "filter leaves it out); deliveries of a history run one after the other; accounts are ordinary wallet accounts "
+        "(the split by account kind is covered by the signer's own families and, composed with the caller, by "
+        "MC_SignerCaller*.cfg); the other batch callers (beaconcommitteesubscriber -> SignSlotSelections, messenger "
+        "Prepare -> SignSyncCommitteeSelections, synccommitteeaggregator -> SignContributionAndProofs) are not bound",
     ]
     with concurrent.futures.ThreadPoolExecutor(max_workers=4) as pool, \
             concurrent.futures.ThreadPoolExecutor(max_workers=1) as pool2, \
@@ -422,7 +467,10 @@ def run(tier):
             # validated after theirs
             hs, n_strong, n_all = caller_histories(tier, random.Random(vf.seed() + 2))
             scs = [{"sc": 100001 + i, "steps": h} for i, h in enumerate(hs)]
-            return scs, n_strong, n_all, caller_driver(scs, "batch")
+            rows = caller_driver(scs, "batch")
+            shs, ns_strong, ns_all = sync_histories(tier, random.Random(vf.seed() + 3))
+            sscs = [{"sc": 200001 + i, "steps": h} for i, h in enumerate(shs)]
+            return scs, n_strong, n_all, rows, sscs, ns_strong, ns_all, sync_driver(sscs, "batch")
         fut_wired = pool3.submit(wired)
         try:
             singles = single_histories(tier, rnd)
@@ -435,10 +483,15 @@ def run(tier):
                        len(sc), len(singles), len(boots), len(core), len(signs), len(rich)))
             vf.conformance(v, sc, driver, "Trace_Signer", "Trace_Signer.cfg", sig_of, nontrivial, chunk=1500,
                            tlc_timeout=1500)
-            wsc, n_strong, n_all, wrows = fut_wired.result()
+            wsc, n_strong, n_all, wrows, ssc, ns_strong, ns_all, srows = fut_wired.result()
             vf.log("wired family: %d histories of duty deliveries on one wired instance (of %d enumerated, %d of them "
                    "with a filtered validator ahead of a served one)" % (len(wsc), n_all, n_strong))
             vf.conformance(v, wsc, lambda scs, tag: wrows if tag == "batch" else caller_driver(scs, tag),
+                           "Trace_SignerCaller", "Trace_SignerCaller.cfg", caller_sig_of, caller_nontrivial,
+                           tlc_timeout=1500)
+            vf.log("wired family, sibling caller (sync committee messenger): %d histories (of %d enumerated, %d of them "
+                   "with a validator without account beside a served one)" % (len(ssc), ns_all, ns_strong))
+            vf.conformance(v, ssc, lambda scs, tag: srows if tag == "batch" else sync_driver(scs, tag),
                            "Trace_SignerCaller", "Trace_SignerCaller.cfg", caller_sig_of, caller_nontrivial,
                            tlc_timeout=1500)
         finally:
@@ -468,7 +521,18 @@ def run(tier):
                           "Signer.tla's table DomainTypeBytes.  Non-trivial = signatures were "
                           "returned and BLS-verified and: one request - for batches both groups of the split are "
                           "populated; several requests - the history has requests on both sides of the fork or two "
-                          "requests overlapped in the signing phase; distinct by history" % N_SIGN_QUICK)
+                          "requests overlapped in the signing phase; distinct by history.  (f) WIRED families "
+                          "(SignerCaller.tla; one wired instance per history: real attester / sync committee messenger in "
+                          "front of the real signer, real wallet account manager over an nd wallet, real validators manager, "
+                          "real submitter, real MergeDuties; fakes at the beacon node): histories of two duty deliveries - "
+                          "every pair of duties (sorted lists of <= 3 of 3 validators x committee assignment x three slots "
+                          "around the fork) x account populations enumerated by TLC; executed: the histories in which a "
+                          "validator that already attested is listed ahead of one that is served (quick: seeded %d of "
+                          "2600; thorough: all) + a seeded sample of the others (quick %d; thorough 3000 + 3000 simulated "
+                          "three-delivery histories over four validators); sync committee message duties: quick %d + %d of "
+                          "1764, thorough all.  Non-trivial there = something left Vouch from a delivery whose batch is "
+                          "not simply the duty (a validator filtered out or without account) or spans committees / "
+                          "validators" % (N_SIGN_QUICK, N_CALLER_QUICK[0], N_CALLER_QUICK[1], N_SYNC_QUICK[0], N_SYNC_QUICK[1]))
     return v.finish()
 
 
@@ -476,7 +540,10 @@ def replay(path):
     v = vf.Verdict(PID, "quick")
     with open(os.path.join(path, "scenario.json")) as fh:
         s = json.load(fh)
-    if any(st["ev"] == "Deliver" for st in s["steps"]):
+    if any(st["ev"] == "Deliver" and st.get("op") == "sync_root" for st in s["steps"]):
+        vf.conformance(v, [s], sync_driver, "Trace_SignerCaller", "Trace_SignerCaller.cfg", caller_sig_of,
+                       caller_nontrivial)
+    elif any(st["ev"] == "Deliver" for st in s["steps"]):
         vf.conformance(v, [s], caller_driver, "Trace_SignerCaller", "Trace_SignerCaller.cfg", caller_sig_of,
                        caller_nontrivial)
     else:
